@@ -155,6 +155,8 @@ def _bytes(ip, args, kw):
             if not ip.st.merge and ip.st.branch(v.e < 0, "bytes(n): n < 0"):
                 ip.raise_(ValueError, "negative count")
             return _M().call_spec(ip, z, [0, v], {})
+        if v.kind == ('seq', 'int') and ip.st.merge:
+            return SV(v.e, 'bytes')       # in specification code: a sequence of byte values read as a byte string
         raise Unsupported("bytes() of " + kind_name(v.kind))
     return native_call(ip, bytes, args, kw)
 
@@ -346,7 +348,8 @@ def _list(ip, args, kw):
     if isinstance(v, SV) and v.kind[0] == 'seq':
         return ip.st.alloc({'k': 'list', 'seq': v})
     if isinstance(v, SV) and v.kind == 'bytes':
-        return ip.st.alloc({'k': 'list', 'seq': SV(v.e, ('seq', 'int'))})
+        # the list of the byte values of a byte string: its elements are known to lie in 0..255 until the list is changed
+        return ip.st.alloc({'k': 'list', 'seq': SV(v.e, ('seq', 'int')), 'byte_elems': True})
     return ip.new_list(ip.iter_values(v))
 
 
@@ -1019,6 +1022,8 @@ def _list_method(ip, recv, c, name, args, kw):
     s = c['seq']
     ek = s.kind[1]
     n = z3.Length(s.e)
+    if name in ('append', 'extend', 'insert', '__setitem__', 'sort', 'reverse'):
+        c.pop('byte_elems', None)
     if name == 'append':
         c['seq'] = SV(simp(z3.Concat(s.e, z3.Unit(lift(args[0], ek).e))), s.kind)
         return None
